@@ -27,7 +27,7 @@ from .. import seams, vsim, progs
 from ..seams import quiet
 
 PROP = 'C02'
-TIERS = {'quick': 2700, 'thorough': 30000}
+TIERS = {'quick': 2700, 'thorough': 360000}
 RULE = ('each run: one behavioural block - a library block that reaches the transpiler, or a seeded random clock()/propagate() '
         'program in the supported subset (interval-checked so every intermediate stays in [0, 2**31)), or a program with one '
         'unsupported construct - co-simulated for 30-200 cycles of seeded inputs from power-up; non-trivial = text was '
